@@ -63,3 +63,119 @@ func ruleguardIntegrator(meta *common.Meta, outDir string) int {
 	}
 	return len(steps)
 }
+
+// ruleguardListParams: the list-valued parameters `enable` and `disable` of the ruleguard checker. A value is a
+// comma-separated list of group names and #tags; the value given is the value used: which groups run is decided by
+// the documented sentence (named or tagged => enabled; named or tagged in disable => off), whatever the order of the
+// elements and whatever blanks surround them (the constructor trims every element, as Model_RuleFiles does).
+func ruleguardListParams(meta *common.Meta, outDir string, rng interface{ Intn(int) int }, tier string) int {
+	ws := filepath.Join(outDir, "ws14rl")
+	os.RemoveAll(ws)
+	defer os.RemoveAll(ws)
+	rdir := userrules.Workspace(ws)
+	common.WriteFile(filepath.Join(rdir, "tagged.go"), `package gorules
+
+import "github.com/quasilyte/go-ruleguard/dsl"
+
+//doc:summary alpha
+//doc:tags alpha
+func gAlpha(m dsl.Matcher) {
+	m.Match("len($s) == 0").Report("user rule gAlpha fired")
+}
+
+//doc:summary beta
+//doc:tags beta
+func gBeta(m dsl.Matcher) {
+	m.Match("cap($s) == 0").Report("user rule gBeta fired")
+}
+
+//doc:summary gamma
+//doc:tags alpha gamma
+func gGamma(m dsl.Matcher) {
+	m.Match("$x = $x").Report("user rule gGamma fired")
+}
+`)
+	env, err := typecheck("package p\n\nfunc F(s string, xs []int, v int) bool {\n\tv = v\n\tif len(s) == 0 {\n\t\treturn true\n\t}\n\treturn cap(xs) == 0\n}\n")
+	if err != nil {
+		meta.TieBroken = append(meta.TieBroken, "list-parameter target: "+err.Error())
+		return 0
+	}
+	groups := map[string][]string{"gAlpha": {"alpha"}, "gBeta": {"beta"}, "gGamma": {"alpha", "gamma"}}
+	elems := []string{"gAlpha", "gBeta", "gGamma", "#alpha", "#beta", "#gamma", "#nosuch", "nosuch"}
+	blanks := []string{"", " ", "  ", "\t"}
+	expect := func(en, dis []string, all bool) []string {
+		has := func(l []string, x string) bool {
+			for _, y := range l {
+				if y == x {
+					return true
+				}
+			}
+			return false
+		}
+		var out []string
+		for g, tags := range groups {
+			on, off := all || has(en, g), has(dis, g)
+			for _, t := range tags {
+				on = on || (!all && has(en, "#"+t))
+				off = off || has(dis, "#"+t)
+			}
+			if on && !off {
+				out = append(out, g)
+			}
+		}
+		sort.Strings(out)
+		return out
+	}
+	render := func(l []string) string {
+		var parts []string
+		for _, e := range l {
+			parts = append(parts, blanks[rng.Intn(len(blanks))]+e+blanks[rng.Intn(len(blanks))])
+		}
+		return strings.Join(parts, ",")
+	}
+	pick := func(max int) []string {
+		n := rng.Intn(max + 1)
+		var l []string
+		for i := 0; i < n; i++ {
+			l = append(l, elems[rng.Intn(len(elems))])
+		}
+		return l
+	}
+	n := 40
+	if tier == "thorough" {
+		n = 400
+	}
+	evals := 0
+	for i := 0; i < n; i++ {
+		en, dis := pick(3), pick(2)
+		all := len(en) == 0 || i%5 == 0
+		enVal := render(en)
+		if all {
+			enVal, en = "<all>", nil
+		}
+		disVal := render(dis)
+		want := expect(en, dis, all)
+		ws, err := env.runWith("ruleguard", map[string]interface{}{"rules": filepath.Join(rdir, "tagged.go"), "enable": enVal, "disable": disVal})
+		evals++
+		if err != nil {
+			if len(want) == 0 {
+				continue // nothing enabled: an initialisation error is C18's subject
+			}
+			meta.Fail("C14/ruleguard/list-parameter-not-applied", fmt.Sprintf("enable=%q disable=%q: construction failed: %v", enVal, disVal, err), map[string]string{"enable": enVal, "disable": disVal})
+			continue
+		}
+		var got []string
+		for _, w := range ws {
+			for g := range groups {
+				if strings.Contains(w.Text, "user rule "+g+" fired") {
+					got = append(got, g)
+				}
+			}
+		}
+		sort.Strings(got)
+		if strings.Join(got, ",") != strings.Join(want, ",") {
+			meta.Fail("C14/ruleguard/list-parameter-not-applied", fmt.Sprintf("enable=%q disable=%q (elements %v / %v): groups that ran %v, the value given selects %v", enVal, disVal, en, dis, got, want), map[string]string{"enable": enVal, "disable": disVal, "rules": "three groups: gAlpha #alpha, gBeta #beta, gGamma #alpha #gamma"})
+		}
+	}
+	return evals
+}
